@@ -184,9 +184,11 @@ impl ServerState {
         let rx = self.cb_rx.clone();
         let last_compilation_state = self.last_compilation_state.clone();
         std::thread::spawn(move || {
+            verif_point!("w_recv_wait");
             while let Ok(msg) = rx.recv() {
                 match msg {
                     TaskMessage::CompilationContext(ctx) => {
+                        verif_point!("w_recv");
                         let uri = &ctx.uri;
                         let path = uri.to_file_path().unwrap();
                         let mut engines_clone = ctx.engines.read().clone();
@@ -213,7 +215,9 @@ impl ServerState {
                         }
 
                         // Set the is_compiling flag to true so that the wait_for_parsing function knows that we are compiling
+                        verif_point!("w_ic_true");
                         is_compiling.store(true, Ordering::SeqCst);
+                        verif_point!("w_compile");
                         match session::parse_project(
                             uri,
                             &engines_clone,
@@ -240,10 +244,12 @@ impl ServerState {
                                                 &mut engines_clone,
                                             );
                                         }
+                                        verif_point!("w_ls_success");
                                         *last_compilation_state.write() =
                                             LastCompilationState::Success;
                                     }
                                     None => {
+                                        verif_point!("w_ls_failed");
                                         *last_compilation_state.write() =
                                             LastCompilationState::Failed;
                                     }
@@ -251,19 +257,29 @@ impl ServerState {
                             }
                             Err(err) => {
                                 tracing::error!("{}", err.to_string());
+                                verif_point!(if err.to_string().contains("retriggered") {
+                                    "w_ls_aborted"
+                                } else {
+                                    "w_ls_failed"
+                                });
                                 *last_compilation_state.write() = LastCompilationState::Failed;
                             }
                         }
 
                         // Reset the flags to false
+                        verif_point!("w_ic_false");
                         is_compiling.store(false, Ordering::SeqCst);
+                        verif_point!("w_rt_clear");
                         retrigger_compilation.store(false, Ordering::SeqCst);
 
                         // Make sure there isn't any pending compilation work
+                        verif_point!("w_is_empty");
                         if rx.is_empty() {
                             // finished compilation, notify waiters
+                            verif_point!("w_notify");
                             finished_compilation.notify_waiters();
                         }
+                        verif_point!("w_recv_wait");
                     }
                     TaskMessage::Terminate => {
                         // If we receive a terminate message, we need to exit the thread
@@ -303,20 +319,26 @@ impl ServerState {
     /// it awaits on a notification. Once notified, it checks again, repeating
     /// this process until `is_compiling` becomes false.
     pub async fn wait_for_parsing(&self) {
+        verif_point!("p_enter");
         loop {
             // Check both the is_compiling flag and the last_compilation_state.
             // Wait if is_compiling is true or if the last_compilation_state is Uninitialized.
+            verif_point!("p_ic_load");
             if !self.is_compiling.load(Ordering::SeqCst)
                 && *self.last_compilation_state.read() != LastCompilationState::Uninitialized
             {
                 // compilation is finished, lets check if there are pending compilation requests.
+                verif_point!("p_is_empty");
                 if self.cb_rx.is_empty() {
                     // no pending compilation work, safe to break.
                     break;
                 }
             }
             // We are still compiling, lets wait to be notified.
+            verif_point!("p_snap");
+            verif_point!("p_await");
             self.finished_compilation.notified().await;
+            verif_point!("p_wake");
         }
     }
 
